@@ -318,6 +318,13 @@ func (w *Writer) Append(entries []types.LogEntry) error {
 		return types.ErrSealed
 	}
 
+	// Refuse entries the reader would later reject as corrupt.
+	for _, e := range entries {
+		if len(e.Data) > MaxEntrySize {
+			return ErrTooBig
+		}
+	}
+
 	flushed := false
 
 	// Save any state we may need to rollback.
